@@ -14,6 +14,7 @@ type mgr struct {
 	closing atomic.Bool
 	items   []func() error
 	tasks   []func() error
+	started atomic.Bool
 }
 
 // --- spawn / collect ---
@@ -191,5 +192,43 @@ func (m *mgr) BadAddCheckAfterUnlock(f func() error) error {
 	m.mu.Lock()
 	m.items = append(m.items, f)
 	m.mu.Unlock()
+	return nil
+}
+
+// --- run at most once: success only after winning the flag ---
+
+var errBusy = errors.New("already started")
+
+func (m *mgr) GoodOnce() error {
+	if !m.started.CompareAndSwap(false, true) {
+		return errBusy
+	}
+	return nil
+}
+
+func (m *mgr) GoodOnceEmptyAfter() error {
+	if m.started.Swap(true) {
+		return errBusy
+	}
+	if len(m.tasks) == 0 {
+		return nil
+	}
+	return nil
+}
+
+func (m *mgr) BadOnceEmptyBefore() error {
+	if len(m.tasks) == 0 {
+		return nil
+	}
+	if !m.started.CompareAndSwap(false, true) {
+		return errBusy
+	}
+	return nil
+}
+
+func (m *mgr) BadOnceNilWhenLost() error {
+	if !m.started.CompareAndSwap(false, true) {
+		return nil
+	}
 	return nil
 }
